@@ -32,6 +32,10 @@ pub fn make_plan(seed: u64, nops: usize, large: bool, reopen_heavy: bool) -> Fau
         block: *[64usize, 256, 4096].get(rng.gen_range(0..3)).unwrap(),
         reuse: rng.gen_bool(0.5),
     };
+    let mut opts = opts;
+    if reopen_heavy {
+        opts.reuse = true;
+    }
     let nkeys = rng.gen_range(3..=6);
     let mut vid = 1;
     let mut ops = vec![];
@@ -79,6 +83,12 @@ pub fn make_plan(seed: u64, nops: usize, large: bool, reopen_heavy: bool) -> Fau
         if reopen_heavy && rng.gen_bool(0.15) {
             // a reopen followed at once by a write that spans log blocks: whatever the reopened
             // log writer believes about its position in the (possibly reused) file matters now
+            // (a small write first, so that the log is not empty and - with reuse_log_files -
+            // is appended to again after the reopen)
+            let k0 = rng.gen_range(1..=nkeys as i64);
+            let mut v0 = val(&mut rng);
+            v0.len = rng.gen_range(20..60);
+            ops.push(Op::Put { k: k0, v: v0 });
             ops.push(Op::Reopen { opts: opts.clone() });
             let k = rng.gen_range(1..=nkeys as i64);
             let mut v = val(&mut rng);
